@@ -61,6 +61,9 @@ Run ==
         /\ Check("C09", "closed-under-reference", \A m \in modules : p.mods[m].reparse => p.mods[m].dangling = <<>>, "F22",
                  \A m \in modules : p.mods[m].reparse => SeqToSet(p.mods[m].dangling) \subseteq SeqToSet(p.mods[m].defaultIfaces),
                  { <<m, p.mods[m].dangling>> : m \in { x \in modules : p.mods[x].reparse /\ p.mods[x].dangling # <<>> } })
+        /\ Check("C09", "imported-names-exported-by-emitted-counterpart",
+                 \A m \in modules : (p.mods[m].reparse /\ "missingImports" \in DOMAIN p.mods[m]) => p.mods[m].missingImports = <<>>, "-", FALSE,
+                 { <<m, p.mods[m].missingImports>> : m \in { x \in modules : p.mods[x].reparse /\ "missingImports" \in DOMAIN p.mods[x] /\ p.mods[x].missingImports # <<>> } })
         /\ Check("C09", "relative-specifiers-resolve", \A m \in modules : p.mods[m].reparse => p.mods[m].unresolvedSpecifiers = <<>>, "-", FALSE, "-")
         /\ Check("C09", "source-map-well-formed-and-faithful", \A m \in modules : p.mods[m].reparse => p.mods[m].mapOk.ok, "-", FALSE,
                  { <<m, p.mods[m].mapOk>> : m \in { x \in modules : p.mods[x].reparse /\ ~p.mods[x].mapOk.ok } })
@@ -77,6 +80,8 @@ Run ==
         /\ Check("C11", "nothing-new-at-top-level", \A m \in modules : p.mods[m].reparse => SeqToSet(p.mods[m].retained) \subseteq SeqToSet(p.mods[m].origTop), "-", FALSE, "-")
         /\ Check("C11", "declaration-kinds-kept", \A m \in modules : p.mods[m].reparse =>
                     \A n \in (DOMAIN p.mods[m].kinds) \cap (DOMAIN p.mods[m].origKinds) : p.mods[m].kinds[n] = p.mods[m].origKinds[n], "-", FALSE, "-")
+        /\ Check("C11", "signatures-carried-over", \A m \in modules : (p.mods[m].reparse /\ "sigDiffs" \in DOMAIN p.mods[m]) => p.mods[m].sigDiffs = <<>>, "-", FALSE,
+                 { <<m, p.mods[m].sigDiffs>> : m \in { x \in modules : p.mods[x].reparse /\ "sigDiffs" \in DOMAIN p.mods[x] /\ p.mods[x].sigDiffs # <<>> } })
         \* ---- spec -> impl: the retained declarations are exactly the public set FastCheck.tla predicts
         /\ (IF "public" \in DOMAIN expect
             THEN /\ Check("C09", "retained-equals-public-set-closure", \A m \in DOMAIN expect.public : m \in Mods(p) =>
